@@ -62,7 +62,7 @@ pub struct TagSpec {
 }
 
 const NAME_CHARS: &[&str] = &["a", "b", "Z", "0", "9", "-", "_", "é", "ж", "名", "ß"];
-const VALUE_CHARS: &[&str] = &["a", "B", "1", " ", "#", ">", "<", "=", "/", "é", "→", "\t", ".", ":", ",", "&quot;", "x y", "</block>", "<block>"];
+const VALUE_CHARS: &[&str] = &["a", "B", "1", " ", "#", ">", "<", "=", "/", "é", "→", "\t", ".", ":", ",", "&quot;", "x y", "</block>", "<block>", "\\", "\\"];
 const SPACES: &[&str] = &[" ", "  ", "\t", " \t "];
 
 fn rand_name(rng: &mut Rng) -> String {
